@@ -10,32 +10,8 @@ from pyvc.u import *  # noqa: F403
 Sel = z3.Select
 
 
-def lookup_spec(dicts, k, i=0):
-    """value of the first map containing k; None (python) if no map contains it"""
-    if i == len(dicts):
-        return None
-    rest = lookup_spec(dicts, k, i + 1)
-    here = Sel(dicts[i].val, k)
-    return here if rest is None else z3.If(Sel(dicts[i].present, k), here, rest)
-
-
 for _n in (1, 2, 3, 4, 5):
-    def _mk(n):
-        @contract(CHAIN + ".__getitem__", prop="C14", name=f"ReadOnlyChainMap.__getitem__[chain-length-{n}]")
-        def chain_getitem(c):
-            maps = [c.dict(f"m{i}") for i in range(n)]
-            hs = [c.st.deref(m).copy() for m in maps]
-            self = mk_chain(c, maps)
-            k = c.str("key")
-            kb = U.str(k.t)
-            c.call(k, self_val=self)
-            anyp = z3.Or(*[Sel(h.present, kb) for h in hs])
-            c.ensures("returns-innermost-binding", lambda r: z3.And(anyp, box(r.value) == lookup_spec(hs, kb)))
-            c.raises("KeyError")
-            c.ensures_exc("keyerror-iff-unbound-everywhere", lambda r: z3.Not(anyp))
-            c.assume_note(f"BOUNDED in the chain length only: chain of {n} maps, each map arbitrary (the lookup loop is unrolled over the concrete deque)")
-            c.replay("code", code=REPLAY_SCOPE)
-    _mk(_n)
+    chain_getitem_contract("C14", _n, lambda: REPLAY_SCOPE)
 
 
 @contract(CHAIN + ".push", prop="C14")
@@ -138,7 +114,7 @@ def assign_frame(c):
     k, v = c.str("key"), c.any("val")
     c.call(k, v, self_val=ctx)
     kb = U.str(k.t)
-    def post(r):
+    def post(r, refused=False):
         f = r.st.deref(ctx).fields
         loc = r.st.deref(f["locals"])
         j = z3.Const("j!a", U)
@@ -148,9 +124,12 @@ def assign_frame(c):
                          z3.ForAll([j], z3.Implies(j != kb, z3.And(Sel(_pres(loc), j) == Sel(loc0.present, j), Sel(_val(loc), j) == Sel(loc0.val, j)))))
         others = z3.And(same(glob0, r.st.deref(f["globals"])), same(cnt0, r.st.deref(f["counters"])),
                         same(c.st.deref(ns1), r.st.deref(ns1)), same(c.st.deref(ns2), r.st.deref(ns2)))
+        if refused:
+            # an assignment refused by the namespace limit (C07) binds nothing; the frame is the same
+            written = z3.ForAll([j], z3.Implies(j != kb, z3.And(Sel(_pres(loc), j) == Sel(loc0.present, j), Sel(_val(loc), j) == Sel(loc0.val, j))))
         return z3.And(written, others, z3.BoolVal(f["locals"] == f0["locals"] and r.st.deref(r.st.deref(f["scope"]).fields["_maps"]).items == dq.items))
     c.ensures("writes-exactly-locals[key]-whatever-blocks-are-open", post)
-    c.ensures_exc("writes-exactly-locals[key]-whatever-blocks-are-open", post)
+    c.ensures_exc("a-refused-assignment-writes-nothing-outside-locals[key]", lambda r: post(r, True))
     c.raises("LocalNamespaceLimitError")
     c.replay("code", code=REPLAY_SCOPE)
 
